@@ -103,19 +103,30 @@ func (p *VarHeaderPostprocessor) substr(args []string) (func(in string) string, 
 		}
 	}
 	return func(in string) string {
+		// bounds are computed per call and clamped to [0, len(in)]: short values must not panic
 		l := len(in)
-		if start < 0 {
-			start = l + start
+		from, to := start, end
+		if from < 0 {
+			from = l + from
 		}
-		if end <= 0 {
-			end = l + end
+		if from < 0 {
+			from = 0
 		}
-		if end > l {
-			end = l
+		if from > l {
+			from = l
 		}
-		if start > end {
-			start, end = end, start
+		if to <= 0 {
+			to = l + to
 		}
-		return in[start:end]
+		if to < 0 {
+			to = 0
+		}
+		if to > l {
+			to = l
+		}
+		if from > to {
+			from, to = to, from
+		}
+		return in[from:to]
 	}, nil
 }
